@@ -393,25 +393,30 @@ func runC05(r *Run, p *Prog) {
 			return &u
 		}
 		kinds := 0
+		seenKind := map[string]bool{}
 		for f, tc := range m.tokens {
 			if isBuiltDuplicate(f) {
 				continue
 			}
 			switch {
-			case tc.MayBeEmpty && tc.First.equal(lower):
+			case tc.First.equal(lower) && tc.Rest.equal(lower):
+				// (the keyword reader is told from the field-name reader by its byte sets, not by the shape of its loop)
 				kinds++
+				seenKind["keyword"] = true
 				r.Ob("K8", shortName(f), "keyword token is [a-z]*", f.Pos(), tc.Rest.equal(lower), "keyword bytes: "+tc.Rest.String())
 			case tc.First.equal(lower):
 				kinds++
+				seenKind["field"] = true
 				r.Ob("K8", shortName(f), "field name token is [a-z][A-Za-z0-9_]*", f.Pos(), tc.Rest.equal(union(lower, upper, digit, setOf('_'))), "following bytes: "+tc.Rest.String())
 			case tc.First.equal(upper):
 				kinds++
+				seenKind["type"] = true
 				r.Ob("K8", shortName(f), "type/method/error name token is [A-Z][A-Za-z0-9]*", f.Pos(), tc.Rest.equal(union(lower, upper, digit)), "following bytes: "+tc.Rest.String())
 			default:
 				r.Ob("K8", shortName(f), "token reader has one of the grammar's three token shapes", f.Pos(), false, "first byte set "+tc.First.String())
 			}
 		}
-		r.Ob("K8", "-", "keyword, field-name and type-name token readers exist", m.typeT.Obj().Pos(), kinds == 3, fmt.Sprintf("%d byte-wise token readers recognised", kinds))
+		r.Ob("K8", "-", "keyword, field-name and type-name token readers exist", m.typeT.Obj().Pos(), kinds == 3 && len(seenKind) == 3, fmt.Sprintf("%d byte-wise token readers recognised, kinds %v (a keyword reader [a-z]*, a field-name reader and a type-name reader are expected)", kinds, seenKind))
 	})
 }
 
